@@ -34,6 +34,9 @@ ILL = [
     ("pp|dd 1e4/0.1", [(1, [1e4]), (1, [1e4])], [(2, [0.1]), (2, [0.1])]),
     ("ss|dd contracted core", [(0, [1e5, 3e3, 50.0, 1.0]), (0, [1e5, 3e3, 50.0, 1.0])], [(2, [0.1, 0.4]), (2, [0.1])]),
     ("sp|df 1e4,1e3/0.1,0.25", [(0, [1e4]), (1, [1e3])], [(2, [0.1]), (3, [0.25])]),
+    # general contractions running from core to valence exponents (the tightest primitive hides behind a diffuse one)
+    ("ss|ff core-to-valence contraction", [(0, [1.457e5, 2.2e3, 31.0, 0.1737]), (0, [1.457e5, 2.2e3, 31.0, 0.1737])], [(3, [0.25]), (3, [0.25])]),
+    ("sp|dd core-to-valence contraction", [(0, [8.2e4, 1.2e3, 20.0, 0.12]), (1, [9.4e3, 95.0, 0.9, 0.11])], [(2, [0.12]), (2, [0.3])]),
 ]
 
 
